@@ -6,6 +6,7 @@ import (
 	"fmt"
 	"os"
 	"os/exec"
+	"strconv"
 	"strings"
 	"sync"
 	"time"
@@ -61,6 +62,12 @@ func c17ReadOnlyOps() []c17Op {
 		{"ValuesForPath(r.k)", func(m mxj.Map) string { return r(m.ValuesForPath("r.k")) }},
 		{"ValuesForPath(r.k[1])", func(m mxj.Map) string { return r(m.ValuesForPath("r.k[1]")) }},
 		{"ValuesForPath(r.*,subkey)", func(m mxj.Map) string { return srt(m.ValuesForPath("r.*", "k:*")) }},
+		{"ValuesForPath(r,subkey)", func(m mxj.Map) string { return srt(m.ValuesForPath("r", "k:*")) }},
+		{"ValuesForPath(r,negated-subkey)", func(m mxj.Map) string { return srt(m.ValuesForPath("r", "!k:*")) }},
+		{"ValuesForPath(r.k,subkey)", func(m mxj.Map) string { return srt(m.ValuesForPath("r.k", "-x:*")) }},
+		{"Exists(r,subkey)", func(m mxj.Map) string { v, e := m.Exists("r", "k:*"); return r(v, e) }},
+		{"ValuesForKey(r,subkey)", func(m mxj.Map) string { return srt(m.ValuesForKey("r", "k:*")) }},
+		{"ValuesForKey(k,negated-subkey)", func(m mxj.Map) string { return srt(m.ValuesForKey("k", "!-x:*")) }},
 		{"ValueForPath(r.k)", func(m mxj.Map) string { return r(m.ValueForPath("r.k")) }},
 		{"ValueForPathString(r.k)", func(m mxj.Map) string { v, e := m.ValueForPathString("r.k"); return r(v, e) }},
 		{"ValuesForKey(k)", func(m mxj.Map) string { return srt(m.ValuesForKey("k")) }},
@@ -377,7 +384,7 @@ func c17Init() {
 func c17Run(c *Ctx) {
 	mustBeDefault(c)
 	c17Init()
-	c.S.Rule = "layer 1+2 (purity, E-input): every read-only operation (35: all ValuesFor*/PathsFor*/Leaf*/Exists/Elements/Attributes/Root queries, all XML/JSON/gob encoders and Writer forms, Copy, StringIndent, NewMap, AnyXml, MapSeq encoders) x every Map template with <= N nodes over keys {r,k,-x,#text} plus MapSeqs decoded from XML documents, with the whole receiver frozen: no monitored store into any container reachable from it, canonical dump unchanged, the package-level variables written are logged (reported as a counter; a synchronised cache is not a violation by itself); ascending and descending map order. layer 3 (interleavings, E-choice): a cooperative scheduler runs 2 threads (thorough: also 3) with 1-2 operations each from a menu of 18 (decode XML with cast, from plain readers incl. the raw form, decode sequence-XML, decode JSON and from a reader, Xml, XmlIndent, Json, Copy, ValuesForPath with wildcard, ValuesForKey, PathsForKey, LeafNodes, Gob round trip, MapSeq.Xml on shared read-only Maps, private round trip); scheduling points at every function entry, loop back-edge, map-iteration step and package-variable access of the instrumented mxj; ALL schedules with <= P preemptions; oracle per schedule: every thread's result equals its sequential result, the shared Maps are unchanged (dump + store monitor). layer 4 (supplementary): the same bodies free-running on the uninstrumented build under the Go race detector - first from a cold start (the first calls of the process run concurrently), then in rounds that also run 18 operations whose argument texts (tags, keys, paths, sub-key specs, key pairs) are new to the process, one text shared by all 8 goroutines and one private to each. non-trivial = schedules with at least one preemption."
+	c.S.Rule = "layer 1+2 (purity, E-input): every read-only operation (41: all ValuesFor*/PathsFor*/Leaf*/Exists/Elements/Attributes/Root queries, all XML/JSON/gob encoders and Writer forms, Copy, StringIndent, NewMap, AnyXml, MapSeq encoders) x every Map template with <= N nodes over keys {r,k,-x,#text} plus MapSeqs decoded from XML documents and wide receivers (lists of 31, 32, 33, 64, 65 members with spare capacity, the key present deeper as well), with the whole receiver frozen: no monitored store into any container reachable from it, canonical dump unchanged, the package-level variables written are logged (reported as a counter; a synchronised cache is not a violation by itself); ascending and descending map order. layer 3 (interleavings, E-choice): a cooperative scheduler runs 2 threads (thorough: also 3) with 1-2 operations each from a menu of 18 (decode XML with cast, from plain readers incl. the raw form, decode sequence-XML, decode JSON and from a reader, Xml, XmlIndent, Json, Copy, ValuesForPath with wildcard, ValuesForKey, PathsForKey, LeafNodes, Gob round trip, MapSeq.Xml on shared read-only Maps, private round trip); scheduling points at every function entry, loop back-edge, map-iteration step and package-variable access of the instrumented mxj; ALL schedules with <= P preemptions; oracle per schedule: every thread's result equals its sequential result, the shared Maps are unchanged (dump + store monitor). layer 4 (supplementary): the same bodies free-running on the uninstrumented build under the Go race detector - first from a cold start (the first calls of the process run concurrently), then in rounds that also run 18 operations whose argument texts (tags, keys, paths, sub-key specs, key pairs) are new to the process, one text shared by all 8 goroutines and one private to each. non-trivial = schedules with at least one preemption."
 	c.S.Assumptions = []string{"sequentially consistent interleavings at hooked points; conflicts through unhooked writes inside the standard library are left to the race-detector pass", "package options are not changed concurrently (as the property states)"}
 	// ---- layers 1 and 2
 	n := 5
@@ -403,6 +410,30 @@ func c17Run(c *Ctx) {
 			rt.OrderPolicy = rt.PolicySorted
 		}
 	})
+	// wide receivers: lists around the internal initial result capacity (32) and its doubling, with the key
+	// present deeper as well; built with spare capacity like decoder-built lists
+	for _, width := range []int{31, 32, 33, 64, 65} {
+		for _, op := range ops {
+			if strings.HasPrefix(op.name, "MapSeq") || !c.Mine() {
+				continue
+			}
+			c.S.States++
+			c.S.Evaluations++
+			for _, pol := range []int{rt.PolicySorted, rt.PolicyReverse} {
+				rt.OrderPolicy = pol
+				wl := make([]interface{}, width, width+3)
+				ws := make([]interface{}, width, width+3)
+				for i := range wl {
+					wl[i] = map[string]interface{}{"k": "m" + strconv.Itoa(i), "-x": "a"}
+					ws[i] = "s" + strconv.Itoa(i)
+				}
+				wl[width/2] = map[string]interface{}{"k": []interface{}{"deep", map[string]interface{}{"k": "deeper"}}}
+				c17Purity(c, map[string]interface{}{"r": map[string]interface{}{"k": wl, "#text": "t"}, "k": ws}, op.name)
+				c17Purity(c, map[string]interface{}{"r": wl, "k": map[string]interface{}{"k": ws}}, op.name)
+			}
+			rt.OrderPolicy = rt.PolicySorted
+		}
+	}
 	for nn := 1; nn <= 3; nn++ {
 		for _, base := range baseTrees(nn, "r", []string{"a", "b"}, 3) {
 			docs := []*XElem{base}
